@@ -429,7 +429,7 @@ fn inventory() -> serde_json::Value {
         }
     }
     for c in ["h263/src", "yuv/src", "deblock/src"] {
-        walk(&std::path::Path::new("/repo").join(c), &mut found);
+        walk(&std::path::Path::new(&std::env::var("VERIF_REPO").unwrap_or_else(|_| "/repo".to_string())).join(c), &mut found);
     }
     json!(found)
 }
